@@ -16,8 +16,11 @@ static YR_RULE rules_table[NR + 1];
 static YR_NAMESPACE ns[2];
 static YR_RULES rules;
 static YR_SCANNER sc;
-static YR_BITMASK rule_matches[1], ns_unsat[1], required_eval[1], temp_disabled[1], no_required[1];
-static YR_MATCHES matches[1], unconfirmed[1];
+/* more strings than fit in one bitmask slot, fewer rules/namespaces than that: a clean-up that sizes one bitmap by
+   the wrong count leaves stale bits behind */
+#define NS_ 70
+static YR_BITMASK rule_matches[1], ns_unsat[1], required_eval[1], temp_disabled[2], no_required[1];
+static YR_MATCHES matches[NS_], unconfirmed[NS_];
 
 /* stub: verdict bits arbitrary */
 static uint64_t st_matches, st_unsat;
@@ -62,7 +65,7 @@ int main(void)
   rules.rules_table = rules_table;
   rules.num_rules = NR;
   rules.num_namespaces = 2;
-  rules.num_strings = 0;
+  rules.num_strings = NS_;
   rules.no_required_strings = no_required;
   memset(&sc, 0, sizeof(sc));
   sc.rules = &rules;
@@ -75,6 +78,14 @@ int main(void)
   sc.ns_unsatisfied_flags = ns_unsat;
   sc.required_eval = required_eval;
   sc.strings_temp_disabled = temp_disabled;
+  /* what a scan may have written before it reaches its exit: arbitrary disabled-string bits and match lists */
+  temp_disabled[0] = vf_u64();
+  temp_disabled[1] = vf_u64() & 0x3F;
+  size_t dirty = vf_range(0, NS_ - 1);
+  static YR_MATCH some;
+  matches[dirty].head = matches[dirty].tail = &some;
+  matches[dirty].count = 1;
+  unconfirmed[dirty].head = &some;
   st_matches = vf_u8() & 7;
   st_unsat = vf_u8() & 3;
   st_result = vf_bool() ? ERROR_SUCCESS : (int) vf_range(1, 60);
@@ -122,6 +133,11 @@ int main(void)
   }
   /* end-of-scan state (also used by C10): verdict bits are cleared */
   VF_ASSERT(rule_matches[0] == 0 && ns_unsat[0] == 0 && required_eval[0] == 0 && sc.matches_notebook == NULL, "scan state is cleaned on every exit");
+  VF_ASSERT(temp_disabled[0] == 0 && temp_disabled[1] == 0, "no disabled-string bit survives a scan, whatever the number of strings");
+  {
+    size_t k = vf_range(0, NS_ - 1); /* arbitrary string index */
+    VF_ASSERT(matches[k].head == NULL && matches[k].count == 0 && unconfirmed[k].head == NULL, "no match list survives a scan");
+  }
   VF_WITNESS("end");
   return 0;
 }
